@@ -49,3 +49,8 @@ claim("C13",
       "Generated FASTA files (runs of N/n/ACGT/acgt snapped to or straddling line breaks, widths 1..80, empty records, with/without final newline), 0..3 exclude BEDs (nested, overlapping, edge-touching, absent contigs), min-gap 0..300/None and the contig filter are run through get_regions and do_access; the regions must equal the maximal runs of a per-base model (non-N, minus excluded, joined when gap < min_gap) and satisfy the direct clauses (non-empty, sorted, separated, no N/excluded base outside a bridged gap).",
       "Trusted: the per-base model; fixed table of canonical/non-canonical example names; valid FASTA (no blank lines, unique names).",
       "DESIGN.md 5/C13")
+claim("C12",
+      "property-based testing (Hypothesis): target/antitarget bins compared with half-open run algebra restated in the harness",
+      "Generated bait tables (nested, overlapping, abutting, duplicate, zero-width, canonical and non-canonical contigs), access tables (abutting/overlapping/short regions, untargeted contigs) or none, and avg/min sizes are run through do_target (split on/off, short names, annotation) and do_antitarget; bins must tile exactly the union of the non-empty baits resp. the shrunk accessible space minus widened targets with max(1, round(len/avg)) equal bins per run, plus the direct clauses (order, disjointness, margins, size bounds, names, contigs).",
+      "Trusted: vk/models.py run algebra; sorted bait tables; default minimum = avg/16; two open findings (contig fallback heuristic, minimum applied before splitting) are excluded by signature and counted.",
+      "DESIGN.md 5/C12")
